@@ -301,6 +301,31 @@ def tool_case(src, mexe, idx, seed, tier):
     return recipe, problems, tries
 
 
+def big_block_case(src, bs):
+    """block sizes whose default group (65528 blocks, the 16-bit limit) is smaller than 8 * blocksize: two groups, the primary
+    superblock destroyed, plain e2fsck has to find the backup in group 1 by itself (no reader involved: 2-4 GiB sparse images)"""
+    T = lambda p_: os.path.join(src, p_)
+    env = e2v.tool_env(src)
+    img = os.path.join(WORK, "bigblk_%d.img" % bs)
+    if os.path.exists(img):
+        os.unlink(img)
+    recipe = {"mke2fs": ["-t", "ext4", "-b", str(bs)], "size": "70000 blocks", "steps": [{"cmd": "zero bytes 1024..4095; e2fsck -fy IMG"}]}
+    rc, out = e2v.sh([T("misc/mke2fs"), "-q", "-F", "-t", "ext4", "-b", str(bs), img, "70000"], env=env, timeout=300)
+    problems = []
+    if rc == 0:
+        with open(img, "r+b") as f:
+            f.seek(1024)
+            f.write(b"\0" * 3072)
+        rc, out = e2v.sh([T("e2fsck/e2fsck"), "-fy", img], env=env, timeout=600)
+        if rc & ~3 or rc < 0:
+            problems.append("plain e2fsck -fy could not use a backup superblock (block size %d, default group size 65528): exit %d" % (bs, rc))
+        elif e2v.sh([T("e2fsck/e2fsck"), "-fn", img], env=env, timeout=600)[0] != 0:
+            problems.append("not clean after the restore from the backup superblock (block size %d)" % bs)
+    if os.path.exists(img):
+        os.unlink(img)
+    return recipe, problems, 1
+
+
 def run(res, replay=None):
     tier, seed = res.tier, res.seed
     os.makedirs(WORK, exist_ok=True)
@@ -358,6 +383,7 @@ def run(res, replay=None):
     n = 26 if tier == "quick" else 260
     with concurrent.futures.ThreadPoolExecutor(8) as ex:
         outs = list(ex.map(lambda i: tool_case(src, mexe, i, seed, tier), range(n)))
+        outs += list(ex.map(lambda b_: big_block_case(src, b_), (32768, 65536)))
     bad = []
     restores = 0
     for i, (recipe, problems, tries) in enumerate(outs):
